@@ -28,6 +28,8 @@ Proof. constructor; cbn; intros; try discriminate; try lia; try tauto; auto. Qed
 Ltac brk :=
   repeat match goal with
          | |- context [sst_eqb ?a _] => is_var a; destruct a
+         | |- context [sst_eqb _ ?a] => is_var a; destruct a
+         | |- context [match ?x with SOpen => _ | _ => _ end] => is_var x; destruct x
          | |- context [match ?x with RIdle => _ | _ => _ end] => is_var x; destruct x
          | |- context [match ?x with LIdle => _ | _ => _ end] => is_var x; destruct x
          | |- context [match ?x with BNotify => _ | _ => _ end] => is_var x; destruct x
@@ -69,7 +71,7 @@ Proof.
   cbn in h1, h2, h3, h4, h5, h6, h7, h8, h9.
   destruct e; cbn [step]; unfold reader_step, wake, finish_early, finish_late, move_to, set_rd;
     cbn [pend rbuf token closeN ss epc ppc lc sclosing dpc now dl tmr tch use_t armed rd minsz res];
-    brk; constructor; fld. Show.
+    brk; constructor; fld.
 Qed.
 
 Lemma winv_run : forall evs s, WInv s -> WInv (run evs s).
